@@ -56,15 +56,6 @@ impl Atom {
         b[31] = last;
         Atom::Id(b)
     }
-    pub fn ty(&self) -> Ty {
-        match self {
-            Atom::Int(_) => Ty::Int,
-            Atom::Str(_) => Ty::Str,
-            Atom::Color(..) => Ty::Color,
-            Atom::Id(_) => Ty::Id,
-            Atom::Bool(_) => Ty::Bool,
-        }
-    }
     pub fn to_value(&self) -> Value {
         match self {
             Atom::Int(i) => Value::Int(*i),
@@ -160,20 +151,6 @@ impl Shape {
     }
     pub fn val_bound(&self, j: usize) -> bool {
         self.val_mask.is_some_and(|m| m & (1 << j) != 0)
-    }
-    pub fn describe(&self, s: &Schema) -> String {
-        let vals = match self.val_mask {
-            None => "no value clause".to_string(),
-            Some(m) => {
-                let b: Vec<&str> = s.vals.iter().enumerate().filter(|(j, _)| m & (1 << j) != 0).map(|(_, (n, _))| *n).collect();
-                if b.is_empty() {
-                    "all values ?".to_string()
-                } else {
-                    format!("values bound: {}", b.join(","))
-                }
-            }
-        };
-        format!("{} of {} keys bound, {vals}", self.bound_keys, s.keys.len())
     }
 }
 
